@@ -2,7 +2,7 @@
 # run the repository's stable baseline in REPO (default /repo) and report tests of BASELINE.stable_pass that do not pass
 REPO="${1:-/repo}"
 OUT="$(mktemp -d)"
-cd "$REPO" && env -u GLOTARAN_PYGLOTARAN_VERIF /venv/bin/python -m pytest -ra -q -p no:cacheprovider --timeout=900 --continue-on-collection-errors --junitxml="$OUT/j.xml" >"$OUT/log" 2>&1
+cd "$REPO" && env -u GLOTARAN_PYGLOTARAN_VERIF PATH="/venv/bin:$PATH" /venv/bin/python -m pytest -ra -q -p no:cacheprovider --timeout=900 --continue-on-collection-errors --junitxml="$OUT/j.xml" >"$OUT/log" 2>&1
 /venv/bin/python - "$OUT/j.xml" <<'PY'
 import json,sys,xml.etree.ElementTree as ET
 base=set(json.load(open('/root/.vp/BASELINE.json'))['stable_pass'])
